@@ -112,6 +112,23 @@ class VLoop(asyncio.BaseEventLoop):
         self._ready.append(h)
         return h._when
 
+    def fire(self, h: Any) -> None:
+        """Moves one specific live timer to the ready queue."""
+        import heapq
+
+        for i, x in enumerate(self._scheduled):
+            if x is h:
+                del self._scheduled[i]
+                break
+        else:
+            raise ValueError("timer handle is not scheduled")
+        self._vseq.pop(id(h), None)
+        heapq.heapify(self._scheduled)
+        h._scheduled = False
+        if h._when > self._vnow:
+            self._vnow = h._when
+        self._ready.append(h)
+
     def advance_to(self, t: float, max_iters: int = 10000) -> None:
         """Default schedule: fire every timer due up to virtual time t, in
         deadline order, running to idle after each."""
